@@ -75,7 +75,7 @@ type Step struct {
 type Case struct {
 	Retention int64  `json:"retention"`
 	MaxSil    int    `json:"max_silences,omitempty"` // Limits.MaxSilences on BOTH instances (0 = none): a limit on API creates, never on Merge
-	MaxSize   int    `json:"max_size,omitempty"` // Limits.MaxSilenceSizeBytes on BOTH instances (0 = none)
+	MaxSize   int    `json:"max_size,omitempty"`     // Limits.MaxSilenceSizeBytes on BOTH instances (0 = none)
 	Vers      []Ver  `json:"vers"`
 	Steps     []Step `json:"steps"`
 	// Race != nil: not a schedule but a run of the concurrent engine (race_test.go) with these parameters
@@ -1003,7 +1003,7 @@ func capacityCases(g *vh.Rand) []Case {
 				c.Steps = append(c.Steps, Step{Inst: 1 - a, Dt: 1, Kind: "merge", Pool: all}, Step{Inst: a, Dt: 1, Kind: "merge", Pool: []int{0, 1}}, Step{Dt: 1, Kind: "sync"})
 			}
 			c.Steps = append(c.Steps, Step{Inst: a, Dt: 1_000_000_000, Kind: "create", Hosts: 1}, // at / over the limit: refused
-				Step{Inst: a, Dt: 1, Kind: "expire", ID: "cap-0"},                                 // updates of known ids still work
+				Step{Inst: a, Dt: 1, Kind: "expire", ID: "cap-0"}, // updates of known ids still work
 				Step{Dt: 1, Kind: "sync"},
 				Step{Inst: 1 - a, Kind: "query", Params: []QP{{Kind: "state", States: []string{"active", "expired"}}}})
 			out = append(out, c)
